@@ -33,6 +33,8 @@ type simRegion struct {
 	addr        string
 	faults      []string // exception kinds answered to the next requests (probes included)
 	bounce      []string // hbase:meta reports these addresses in turn; all of them host the region
+	staleAddr   string   // hbase:meta still reports this previous location …
+	staleN      int      // … for this many more lookups
 }
 
 func (r *simRegion) fq() []byte {
@@ -368,6 +370,11 @@ func (c *simCluster) metaScan(r *hrpc.Scan) *pb.ScanResponse {
 		best.addr = best.bounce[0]
 		best.bounce = append(best.bounce[1:], best.bounce[0])
 	}
+	reported := best.addr
+	if best.staleN > 0 {
+		best.staleN--
+		reported = best.staleAddr
+	}
 	ns := best.ns
 	if len(ns) == 0 {
 		ns = []byte("default")
@@ -379,7 +386,7 @@ func (c *simCluster) metaScan(r *hrpc.Scan) *pb.ScanResponse {
 	ts := uint64(1)
 	cells := []*pb.Cell{
 		{Row: best.name, Family: []byte("info"), Qualifier: []byte("regioninfo"), Value: val, Timestamp: &ts, CellType: pb.CellType_PUT.Enum()},
-		{Row: best.name, Family: []byte("info"), Qualifier: []byte("server"), Value: []byte(best.addr), Timestamp: &ts, CellType: pb.CellType_PUT.Enum()},
+		{Row: best.name, Family: []byte("info"), Qualifier: []byte("server"), Value: []byte(reported), Timestamp: &ts, CellType: pb.CellType_PUT.Enum()},
 	}
 	resp.Results = []*pb.Result{{Cell: cells}}
 	return resp
